@@ -98,9 +98,10 @@ def gen(rng, tier):
     for name, ops in SCENARIOS.items():
         n = _count_allocs(hbin, name, ops)
         idxs = list(range(n))
-        if tier == "quick" and n > 60:
-            step = n / 60.0
-            idxs = sorted(set(int(i * step) for i in range(60)) | set(rng.sample(range(n), 10)))
+        if tier == "quick" and n > 250:
+            # quick: every index of the short scenarios, 250 evenly spread + 30 random ones of the long ones
+            step = n / 250.0
+            idxs = sorted(set(int(i * step) for i in range(250)) | set(rng.sample(range(n), 30)))
         for i in idxs:
             cases.append(["# scenario=%s index=%d of %d" % (name, i, n), "allocfail at=%d" % i] + ops + ["alloccount"] + PROBE + ["destroy"])
     return cases
